@@ -16,6 +16,16 @@ def _uniq(seq):
     return out
 
 
+def excused_events(tr):
+    """events below an event one of whose handlers was cancelled by its time-out: their not-yet-started handlers are cancelled
+    rather than run (C10), so 'ran exactly once' weakens to 'ran at most once' for them."""
+    out = set()
+    for h, x in tr.X.items():
+        if x.outcome == 'cancelled':
+            out.update(tr.desc(tr.Eh[h].ev))
+    return out
+
+
 def expected_pairs(ctx, tr, lab, before_seq=None):
     """[(bus, handler name)] that must run for event `lab`: monitored handlers matching it on every bus that accepted it."""
     out = []
@@ -273,10 +283,11 @@ def eval_c11(ctx, tr, final_snaps):
         ok = len(res) == 1 and res[0].status == 'error' and res[0].error is ex and res[0].result is None
         ctx.check('C11.captured', ok, h=inv_id, got=[(r.status, repr(r.error)[:80]) for r in res])
         ctx.witness('handler error')
+    exc_ = excused_events(tr)
     for (bus, lab) in _uniq(tr.accepted()):
         for name in ctx.expected(bus, lab):
             n = tr.count(bus, lab, name)
-            ctx.check('C11.others_once', n == 1, bus=bus, ev=lab, handler=name, n=n)
+            ctx.check('C11.others_once', (n <= 1) if lab in exc_ else (n == 1), bus=bus, ev=lab, handler=name, n=n)
     for lab, s in final_snaps.items():
         if any(r.ev == lab for r in tr.DR):
             ctx.check('C11.completes', s['status'] == 'completed' and s['signal'] is True, ev=lab, got=(s['status'], s['signal']))
@@ -373,7 +384,7 @@ def eval_c15(ctx, tr):
             if r.bus == bus and r.seq < ab.seq:
                 for name in ctx.expected(bus, r.ev):
                     es = [e for e in tr.E if e.bus == bus and e.ev == r.ev and e.name == name]
-                    done = bool(es) and all((tr.X.get(e.h) is not None and tr.X[e.h].seq < ob.seq) for e in es)
+                    done = (bool(es) or r.ev in excused_events(tr)) and all((tr.X.get(e.h) is not None and tr.X[e.h].seq < ob.seq) for e in es)
                     ctx.check('C15.sound', done, bus=bus, ev=r.ev, handler=name, why='event accepted before the call had not finished processing')
 
 
